@@ -14,7 +14,7 @@ pub const META: PropMeta = PropMeta {
     id: "C38",
     quick_runs: 24_000,
     thorough_runs: 3_000_000,
-    rule: "each run picks a corpus simulation program, a seeded workload and 4096 decision bytes, executes the instance twice in this process through CompiledSim::fuzz_repro and (for a seeded 1/16 of the runs, in batches) once more in a fresh child process — under an LD_PRELOADed getrandom shim with a different hash seed when /verif/e7_seedsim/shim.so exists — and compares decision log, outputs and verdict byte for byte. Distinct = distinct hash of (program, decision log); non-trivial = at least one item flowed AND the schedule has more than one tick/observation or served an await mid-workload.",
+    rule: "each run picks a corpus simulation program, a seeded workload and 4096 decision bytes, executes the instance three times in this process through CompiledSim::fuzz_repro and (for a seeded 1/16 of the runs, in batches) once more in a fresh child process — under an LD_PRELOADed getrandom shim with a different hash seed when /verif/e7_seedsim/shim.so exists — and compares decision log, outputs and verdict byte for byte. Distinct = distinct hash of (program, decision log); non-trivial = at least one item flowed AND the schedule has more than one tick/observation or served an await mid-workload.",
     time_unit: "scheduled ticks + observations (first execution)",
     real: &[
         "hydro_lang::sim::compiled::{CompiledSim::fuzz_repro, run_with_scheduler_and_logger, LaunchedSim::step, run_hooks}",
@@ -105,12 +105,18 @@ pub fn run_one(flow: &Flow, inp: &RunIn<'_>, pending_child: &Pending) -> RunOut 
     let kind = flow.kind;
     let steps = workload(kind, inp.run_seed);
     let a = flow.run(inp.bytes, &steps);
-    let b = flow.run(inp.bytes, &steps);
     let mut out = RunOut::default();
     out.probe("replayed_in_process");
-    let (fa, fb) = (fingerprint(&a), fingerprint(&b));
-    if fa != fb {
-        out.fail(format!("replay_differs_in_process/{}", kind.name()), format!("two executions from the same {} decision bytes differ: {}", inp.bytes.len(), first_diff(&fa, &fb)));
+    let fa = fingerprint(&a);
+    // re-execute from the same bytes (more often while a candidate is being confirmed: a
+    // nondeterministic simulator need not differ on every re-execution)
+    for i in 0..(if inp.deep { 12 } else { 2 }) {
+        let b = flow.run(inp.bytes, &steps);
+        let fb = fingerprint(&b);
+        if fa != fb {
+            out.fail(format!("replay_differs_in_process/{}", kind.name()), format!("execution #{} from the same {} decision bytes differs from the first: {}", i + 2, inp.bytes.len(), first_diff(&fa, &fb)));
+            break;
+        }
     }
     if let Verdict::Panic(msg, loc) = &a.verdict {
         if !panic_in_sut(loc) && !msg.starts_with("Stream ended") {
